@@ -11,6 +11,7 @@
 #include <array>
 #include <bitset> // std::bitset
 #include <chrono>
+#include <cmath> // std::llround
 #include <cstdint>
 #include <cstring>
 #include <functional>
@@ -1594,6 +1595,24 @@ namespace variant_detail
             return to_json_(aset, val);
         }
 
+        // A floating-point number of seconds scaled to a finer period is the nearest count, 
+        // not the truncated one (133246.566*1000 is 133246565.99999999)
+        template <typename R=Rep>
+        static 
+        typename std::enable_if<std::is_integral<R>::value,R>::type
+        scaled_to_rep_(double val)
+        {
+            return static_cast<R>(std::llround(val));
+        }
+
+        template <typename R=Rep>
+        static 
+        typename std::enable_if<!std::is_integral<R>::value,R>::type
+        scaled_to_rep_(double val)
+        {
+            return static_cast<R>(val);
+        }
+
         template <typename Alloc, typename TempAlloc, typename PeriodT=Period>
         static 
         typename std::enable_if<std::is_same<PeriodT,std::ratio<1>>::value, result_type>::type
@@ -1702,7 +1721,7 @@ namespace variant_detail
                 switch (j.tag())
                 {
                     case semantic_tag::epoch_second:
-                        return result_type(in_place, static_cast<Rep>(*res * millis_in_second));
+                        return result_type(in_place, scaled_to_rep_(*res * millis_in_second));
                     case semantic_tag::epoch_milli:
                         return result_type(in_place, static_cast<Rep>(*res));
                     case semantic_tag::epoch_nano:
